@@ -203,6 +203,19 @@ def for_(ex, st, s):
             yield st1, (RAISE, itv)
             continue
         kind, payload = iter_sequence(ex, st1, itv)
+        if kind == "enumerate":
+            k2, p2 = iter_sequence(ex, st1, payload)
+            if k2 == "pyiter":
+                # enumerate(x) with x of unknown kind: iterable or TypeError, then over its items
+                t = p2
+                ok = z3.Or(Py.is_list(t), Py.is_tuple(t), Py.is_dict(t), Py.is_set(t), Py.is_bytes(t))
+                for st2, r in ex.need(st1, ok, "TypeError", "iter"):
+                    if r is not None:
+                        yield st2, (RAISE, r)
+                        continue
+                    from .calls import py_items
+                    yield from for_core(ex, st2, s, "enumerate", V("list", py_items(t)))
+                continue
         if kind == "pyiter":
             t = payload
             ok = z3.Or(Py.is_list(t), Py.is_tuple(t), Py.is_dict(t), Py.is_set(t), Py.is_bytes(t))
